@@ -10,6 +10,7 @@ import Pep508.Model.Interner
 import Pep508.Model.InternerOps
 import Pep508.Model.InternerPy
 import Pep508.Model.Kind
+import Pep508.Model.Path
 namespace Pep508.Driver
 open Pep508
 
@@ -239,6 +240,19 @@ def runUrlHelpers (args : List String) : String :=
       let sch := match splitScheme t with | some (a, b) => s!"{hexOfChars a}:{hexOfChars b}" | none => "none"
       let ext := match splitExtras t with | some (a, b) => s!"{hexOfChars a}:{hexOfChars b}" | none => "none"
       s!"scheme={sch} extras={ext} strip={hexOfChars (stripHost t)} archive={if looksLikeArchive t then 1 else 0}"
+    | none => "bad-op"
+  | _ => "bad-op"
+
+/-- `pathnorm <hex text>`: `VerbatimUrl::from_absolute_path` up to the URL conversion -/
+def runPathNorm (args : List String) : String :=
+  match args with
+  | [text] =>
+    match charsOfHex text with
+    | some t =>
+      match fromAbsolutePath t with
+      | .ok p f => s!"ok {hexOfChars p} {match f with | some f => hexOfChars f | none => "none"}"
+      | .relative => "relative"
+      | .escapes => "escapes"
     | none => "bad-op"
   | _ => "bad-op"
 
